@@ -166,18 +166,7 @@ def run(run, thorough):
     byt = {id(s): (a, t, k) for s, a, t, k in tog}
     for scn, res in outt:
         args, target, tk = byt[id(scn)]
-        before, o = res['before'], res['steps'][0]
-        after = o['after']
-        run.count('together-state')
-        left = [a for a in args if a in after]
-        pairs, strays, orphans = putlib.new_trash_items(before, after)
-        run.nontriv(('together', tk, tuple(os.path.basename(a) for a in args), o['exit'], len(pairs)))
-        if left or o['exit'] != 0 or len(pairs) != len(args) or strays or orphans:
-            run.fail('oracle', 'several names of one thing given in one invocation: not every named entry was trashed',
-                     {'scenario': scn, 'still_there': left, 'exit': o['exit'], 'new_entries': pairs, 'stderr': o['stderr'][-300:]},
-                     key='argument-skipped', section='together-state')
-        if target not in args and sandbox.subtree(after, target) != sandbox.subtree(before, target):
-            run.fail('oracle', 'the target of the links was touched', {'scenario': scn}, key='target-touched', section='together-state')
+        judge_together(run, scn, res, args, target, tk)
     # the known finding (shared with C01): '..' after a symlinked directory
     known = {'tree': [['d', '/home/u', 0o755], ['d', '/other/dir', 0o755], ['f', '/other/x', 'theirs'], ['f', '/home/u/x', 'mine'],
                       ['l', '/home/u/link', '/other/dir']], 'mounts': [], 'cwd': '/home/u', 'uid': 0,
@@ -191,6 +180,21 @@ def run(run, thorough):
                  key='lexical-dotdot-after-symlink', section='known-finding-probe')
     if out:
         run.sample({'level': 'state', 'arg': esc(metas[0]['arg']), 'target': esc(metas[0]['target']), 'kind': metas[0]['tk']})
+
+
+def judge_together(run, scn, res, args, target, tk, section='together-state'):
+    before, o = res['before'], res['steps'][0]
+    after = o['after']
+    run.count(section)
+    left = [a for a in args if a in after]
+    pairs, strays, orphans = putlib.new_trash_items(before, after)
+    run.nontriv(('together', tk, tuple(os.path.basename(a) for a in args), o['exit'], len(pairs)))
+    if left or o['exit'] != 0 or len(pairs) != len(args) or strays or orphans:
+        run.fail('oracle', 'several names of one thing given in one invocation: not every named entry was trashed',
+                 {'scenario': scn, 'still_there': left, 'exit': o['exit'], 'new_entries': pairs, 'stderr': o['stderr'][-300:]},
+                 key='argument-skipped', section=section)
+    if target not in args and sandbox.subtree(after, target) != sandbox.subtree(before, target):
+        run.fail('oracle', 'the target of the links was touched', {'scenario': scn}, key='target-touched', section=section)
 
 
 def replay(run, payload):
@@ -208,3 +212,9 @@ def replay(run, payload):
                 return ''.join(chr(int(h, 16)) for h in v[3:].split('.'))
             return v
         judge(run, scn, {k: un(v) for k, v in meta.items()}, res)
+    elif scn.get('cwd') == '/home/u/w' and len(scn['steps']) == 1 and scn['steps'][0]['cmd'] == 'put':
+        # the "several names of one thing" family: everything is in the scenario
+        args = scn['steps'][0]['argv'][1:]
+        tgt = [e[2] for e in scn['tree'] if e[0] == 'l' and e[1] == '/home/u/w/l1']
+        target = os.path.normpath(os.path.join('/home/u/w', tgt[0])) if tgt else '/home/u/w/none'
+        judge_together(run, scn, res, args, target, '?', 'replay')
